@@ -256,6 +256,20 @@ PROPS = {
   'trusted_base': ['fault enumeration harness (exploration/fault_enumeration, not proof)'],
   'assumptions': ['"finish Ok => complete" is read for histories in which no earlier call returned Err'],
  },
+ 'C03': {
+  'level_text': 'Coq theorem (closed under the global context): for every filter setting incl. Adaptive, every pixel size, every row length (multiple of it) and every list of rows, the decoder\'s row pipeline (equal to the specification: C01) '
+                'applied to the stream of the model of the encoder\'s row loop returns exactly the rows; the encoder never refuses well-shaped rows. Composes C14 (filters are inverse incl. first row). Stream-writer buffering, chunk writer, '
+                'short-writing sinks and the compressors are tied by the correspondence (exact filtered scanlines predicted by the extracted model; round trip through the crate\'s decoder AND an independent reference decoder).',
+  'level_note': 'Trusted: Coq kernel; translator (Paeth predictors, filter-byte decoding); hand models of filter.rs loops and of the encoder row loop (coq/Model/EncodePipeline.v) tied by differential execution; fdeflate / flate2 '
+                'compress such that inflating returns the input (contract, checked every run); StreamWriter/ChunkWriter/write_all buffering not proved.',
+  'gen_items': ['filter_paeth_encode', 'filter_paeth_decode', 'RowFilter::from_u8', 'sum_buffer.weight'],
+  'model_name': 'Model/EncodePipeline.v encode_image + Model/Pipeline.v unfilter_rows',
+  'rule': 'cases = 15 colour/depth pairs x 6 filter settings x widths 1..70 (crossing the 32-byte chunk and all remainders) x heights 1..8 x 17 compression settings x {write_image_data, stream_writer_with_size(1..4096)} x write '
+          'partitions x sinks accepting 1-10 bytes per call; rows of 4-70 KiB (adaptive/vector paths); each output decoded by the crate and by the independent reference decoder and compared with the bytes given; filtered scanlines '
+          'compared with the Coq model for explicit deflate levels. distinct = (colour, depth, filter, compression, way, row length mod 32).',
+  'trusted_base': ['hand models tied by differential execution', 'independent reference decoder harness/src/c03.rs'],
+  'assumptions': ['single (non-animated) image, as the property states', 'NoCompression / UltraFast-fallback paths bypass filtering (checked by round trip only)'],
+ },
 }
 
 NOT_APPLICABLE = {}
